@@ -165,7 +165,11 @@ func c05NativeNum(text string, h uint64) any {
 			x := n.Int64()
 			switch h % 9 {
 			case 0, 1:
-				return int(x)
+				// (a 32-bit build: a value an int cannot hold arrives as int64, never narrowed here)
+				if int64(int(x)) == x {
+					return int(x)
+				}
+				return x
 			case 2:
 				return x
 			case 3:
@@ -191,8 +195,11 @@ func c05NativeNum(text string, h uint64) any {
 				}
 				return uint64(x)
 			case 5:
-				if x >= 0 {
+				if x >= 0 && uint64(uint(x)) == uint64(x) {
 					return uint(x)
+				}
+				if x >= 0 {
+					return uint64(x)
 				}
 			case 6:
 				if x > -(1<<53) && x < 1<<53 {
